@@ -218,7 +218,15 @@ func mergeAuthorizerHealthCheckEvents() *eventsMergerImpl[dbs.DbHealthCheck] {
 }
 
 func mergeAuthorizerBurnEvents() *eventsMergerImpl[state.Burn] {
-	return newEventsMerger[state.Burn](TagAuthorizerBurn, withUniqueEventOverwrite())
+	// burns add up: several burns of one burner in a block are summed, not overwritten
+	return newEventsMerger[state.Burn](TagAuthorizerBurn, withEventMerge(func(a, b *state.Burn) (*state.Burn, error) {
+		amount, err := currency.AddCoin(a.Amount, b.Amount)
+		if err != nil {
+			return nil, err
+		}
+		a.Amount = amount
+		return a, nil
+	}))
 }
 
 func mergeAddBridgeMintEvents() *eventsMergerImpl[BridgeMint] {
